@@ -64,6 +64,34 @@ CLAIMED["C17"] = dict(
     note="full on NFC input over the client class; NFC normalisation, Unicode to_lowercase of non-ASCII cased letters, katakana/NFD equivalence are exercised on the implementation only. "
          "Three genuine defects were repaired (F8a-c). Trusted: Coq kernel, translators gen_kana/gen_elisp, the elisp evaluator standing in for Emacs.",
     ref="6/C17")
+SRV_NOTE = ("Trusted: Coq kernel; translators (gen_speech, gen_dicgrammar, gen_conj, gen_score, gen_kana); the hand model Server/ServerModel.v, tied on every run by driving the REAL server over HTTP "
+            "through request histories (quiesced via the Verif.Dump hook) and comparing every response, the learned counts with time stamps, the user dictionary and the live sessions with the model, restarts included; "
+            "jsonrpsee/HTTP, tokio, Mutex/mpsc semantics, postcard, the file system and wall-clock behaviour are observed, not proved; i32 overflow and very long inputs are outside the model.")
+CLAIMED["C05"] = dict(
+    technique="Coq proof (invariant over all request histories of a sequential server model composed of the library models: no panic under a lock, restart included) + real-server request histories",
+    text="C05_no_panic: for every finite history of the six RPC methods with arbitrary strings and ids, the internal updater steps and restarts on the saved files, every request is answered (or, for "
+         "RegisterWord{Guess} on an inconsistent pair only, fails before touching anything shared) and the invariant holds afterwards, so no mutex is poisoned and no background task dies; a conversion's answer is a function of "
+         "(effective dictionary, learned counts) only. Rests on C01/C02 (search total), C12 (guessed entries conjugate), C17 (romaji total), and on the proof that a restore only yields entries the server held (no line injection).",
+    note="partial: runtime semantics trusted. " + SRV_NOTE, ref="6/C05")
+CLAIMED["C06"] = dict(
+    technique="Coq proof (frequency-table algebra, context isolation by extensionality through the whole search, score shift, candidate-set invariance) + real-server histories + real ConversionFrequency at the expiry boundary",
+    text="C06_confirm_exact (exactly one count +1, stamped now, every other key untouched unless unused for more than three days), C06_unknown_changes_nothing, C06_same_candidate_set, C06_score_shift, C06_context_isolation, "
+         "expiry boundary (exactly 3 d kept, +1 ms dropped).",
+    note="full for the logic; " + SRV_NOTE, ref="6/C06")
+CLAIMED["C07"] = dict(
+    technique="Coq proof (composition of C03's offer theorem, the trie/key-set abstraction of C04 and dictionary monotonicity) + real-server histories with every guessable ending",
+    text="C07_registered_convertible: once applied, every conjugated form whose reading is spelled in the dictionary alphabet is offered for its reading (untruncated list); C07_only_adds; guessed classes always contain the form before ない.",
+    note="partial: 'within bounded time' is the asynchronous hand-off, observed by polling; the server's n = 100 truncation is outside the offer clause. " + SRV_NOTE, ref="6/C07")
+CLAIMED["C08"] = dict(
+    technique="Coq proof (restore = filter of printable entries, synced invariant, exact restart theorem) + kernel-checked refutation witness + real-server save/stop/start histories",
+    text="C08_restore_filter (reading the written user dictionary back yields exactly its printable entries, nothing else), C08_idempotent, C08_synced_invariant, C08_restart_exact (standard map, key set, counts with time stamps and user "
+         "dictionary reproduced exactly, hence every answer in the same order), C08_produced_entries_printable; refuted in full generality by a guessed entry with an empty stem (F16, known finding).",
+    note="partial: the binary half of the saved state rests on postcard's round trip (observed, not proved). " + SRV_NOTE, ref="6/C08")
+CLAIMED["C20"] = dict(
+    technique="Coq proof (extractor shapes; end-to-end through C07/C08) + real session protocol on the real server",
+    text="C20_learns_prefix_word / word_suffix / prefix_word_suffix (followed by nothing or the unconverted tail), C20_no_affix_no_learning; the learned noun is applied (C07), saved and restored (C08). "
+         "The extractor as it was (blind to BOS-headed chains) is kept as C20_old_extractor_blind; the defect F3 was repaired.",
+    note="full for the extractor; the end-to-end part shares C07/C08's trust. " + SRV_NOTE, ref="6/C20")
 PENDING = {}
 
 def main():
